@@ -514,11 +514,16 @@ static void print_tokens(Token *tok) {
   Token *prev = NULL;
   int line = 1;
   for (; tok->kind != TK_EOF; tok = tok->next) {
-    if (line > 1 && tok->at_bol)
+    // All directives have been processed, so a "#" that is left is
+    // text made by macro replacement. At the beginning of a line it
+    // would be read back as a directive: it stays on the previous line.
+    bool at_bol = tok->at_bol && !(prev && equal(tok, "#"));
+
+    if (line > 1 && at_bol)
       fprintf(out, "\n");
-    else if (tok->has_space && !tok->at_bol)
+    else if ((tok->has_space || tok->at_bol) && !at_bol)
       fprintf(out, " ");
-    else if (prev && !tok->at_bol && may_fuse(prev, tok))
+    else if (prev && !at_bol && may_fuse(prev, tok))
       fprintf(out, " ");
     fprintf(out, "%.*s", tok->len, tok->loc);
     prev = tok;
